@@ -84,6 +84,110 @@ def source_guards():
     return out
 
 
+PROBE_HEAD_GET = b"GET /g HTTP/1.1\r\nHost: x\r\n\r\n"
+PROBE_HEAD_CH = b"POST /u HTTP/1.1\r\nHost: x\r\nTransfer-Encoding: chunked\r\n\r\n3\r\nabc\r\n4\r\ndefg\r\n2\r\nhi\r\n0\r\n\r\n"
+
+
+def probe_script():
+    def case(name, beh, req=PROBE_HEAD_GET, extra=(), mode="select", nconn=1, beh1=None):
+        L = ["case " + name, "cfg mode=%s suspend=1" % mode, "resp 1 kind=cb-unknown size=10 cbmax=4", "resp 2 kind=cb-known size=10 cbmax=4"]
+        L.append("beh 0 0 " + beh)
+        if nconn == 2:
+            L.append("beh 1 0 " + beh1)
+        L.append("start")
+        for c in range(nconn):
+            L.append("arrive %d %d" % (c, c + 1))
+        for c in range(nconn):
+            L.append("send %d %s" % (c, hx(req)))
+        L += ["round"] * 4 + list(extra) + ["round"] * 8 + ["stop"]
+        return L
+    none = "fs=- u=all us=- ls=- rs=- rd=0 l=r1"
+    S = []
+    S += case("final", "fs=- u=all us=- ls=n rs=- rd=0 l=r1", extra=["wb 0", "probe read 0", "probe idle 0", "wb 0", "resume 0", "wb 0"])
+    S += case("write", "fs=- u=all us=- ls=- rs=0:n rd=1 l=r1", extra=["round", "round", "probe write 0", "resume 0"])
+    S += case("retry", "fs=- u=all us=0:n ls=- rs=- rd=0 l=r1", req=PROBE_HEAD_CH, extra=["resume 0"])
+    S += case("first", "fs=d0 u=all us=- ls=- rs=- rd=0 l=r1")
+    S += case("shortcut", "fs=p u=all us=- ls=- rs=- rd=0 l=r1")
+    S += case("known", "fs=- u=all us=- ls=- rs=1:n rd=1 l=r2", extra=["round", "round", "round", "resume 0"])
+    S += case("prev", "fs=n u=all us=- ls=- rs=- rd=0 l=r1", nconn=2, beh1=none, extra=["resume 0"])
+    return S
+
+
+def probe_script_epoll():
+    """a connection suspended while its (stale) event-loop info says PROCESS: an unguarded epoll update would
+    queue the suspended connection in the eready list (and the later resume would panic) — run separately"""
+    req = b"POST /u HTTP/1.1\r\nHost: x\r\nContent-Length: 9\r\n\r\nabcdefghi"
+    return ["case epoll", "cfg mode=epoll suspend=1", "resp 1 kind=cb-unknown size=10 cbmax=4",
+            "beh 0 0 fs=- u=2,all us=1:n ls=- rs=- rd=0 l=r1", "start", "arrive 0 1", "send 0 " + hx(req)] + ["round"] * 5 + \
+           ["wb 0", "probe idle 0", "wb 0", "resume 0"] + ["round"] * 8 + ["stop"]
+
+
+def probe_guards():
+    """behavioural determination of the guards (semantic route): the real code is asked"""
+    h = vlib.build_daemon_harness(name="h_susp", src="harness/h_susp.c", ldextra=["-ldl"])
+    out, rc, err = vlib.run_lines(h, probe_script(), timeout=120)
+    if rc != 0:
+        raise RuntimeError("guard probe run failed (rc=%d): %s" % (rc, err[-600:]))
+    cs = split_cases(out)
+    g = {}
+
+    def probes(name):
+        return [dict(KV.findall(l)) for l in cs.get(name, []) if l.startswith("probe ")]
+    pf = {p["fn"]: p for p in probes("final")}
+    if "read" in pf and pf["read"]["suspended"] == "1":
+        g["readGuard"] = pf["read"]["io"] == "0"
+    if "idle" in pf and pf["idle"]["suspended"] == "1":
+        g["idleLoopGuard"] = pf["idle"]["cb"] == "0" and pf["idle"]["state"].split("->")[0] == pf["idle"]["state"].split("->")[1]
+        if g["idleLoopGuard"]:
+            a, b = pf["idle"]["eli"].split("->")
+            g["eliGuard"] = a == b
+    wbs = [dict(KV.findall(l)) for l in cs.get("final", []) if l.startswith("wb ")]
+    if len(wbs) == 3 and wbs[1]["suspended"] == "1":
+        g["resumeSetsBoth"] = wbs[2]["resuming"] == "1" and wbs[2]["dresuming"] == "1" and wbs[1]["resuming"] == "0"
+    pw = probes("write")
+    if pw and pw[0]["suspended"] == "1":
+        g["writeGuard"] = pw[0]["io"] == "0"
+    lg = cs.get("retry", [])
+    if any(l.startswith("suspend ") and "eff=1" in l for l in lg):
+        k = next(i for i, l in enumerate(lg) if l.startswith("suspend "))
+        r = next((i for i, l in enumerate(lg) if l.startswith("resume ")), len(lg))
+        g["bodyRetryGuard"] = not any(l.startswith("handler ") for l in lg[k:r])
+    lg = cs.get("first", [])
+    if any(l.startswith("suspend ") and "eff=1" in l for l in lg):
+        g["idleFirstCallGuard"] = any("phase=refirst" in l for l in lg)
+    lg = cs.get("shortcut", [])
+    sp = [l for l in lg if l.startswith("suspend ")]
+    if sp:
+        g["suspendResumingShortcut"] = "eff=0" in sp[0]
+    lg = cs.get("known", [])
+    if any(l.startswith("suspend ") and "eff=1" in l for l in lg):
+        k = next(i for i, l in enumerate(lg) if l.startswith("suspend "))
+        r = next((i for i, l in enumerate(lg) if l.startswith("resume ") and i > k), len(lg))
+        g["writeReaderGuard"] = not any(l.startswith("io ") and " send " in l for l in lg[k:r])
+    lg = cs.get("prev", [])
+    if any(l.startswith("suspend c=0") and "eff=1" in l for l in lg):
+        k = next(i for i, l in enumerate(lg) if l.startswith("suspend c=0"))
+        e = next(i for i, l in enumerate(lg) if i > k and l == "round-end")
+        b = max(i for i, l in enumerate(lg) if i < k and l == "round-begin")
+        g["selectReadsPrevAfterCall"] = not any(l.startswith("handler c=1") for l in lg[b:e])
+    out, rc, err = vlib.run_lines(h, probe_script_epoll(), timeout=120)
+    wbs = [dict(KV.findall(l)) for l in out if l.startswith("wb ")]
+    if len(wbs) >= 2 and wbs[0]["suspended"] == "1" and int(wbs[0]["eli"]) & 4:
+        in_eready = 4      # MHD_EPOLL_STATE_IN_EREADY_EDLL, cross-checked against Gen below
+        g["idleEpollGuard"] = (int(wbs[1]["ep"]) & in_eready) == 0
+    return g
+
+
+def effective_guards():
+    """the value of every guard: what the code *does* where a behavioural probe exists (a harmless
+    rewrite of a guard line does not flip it), the source pattern otherwise"""
+    sg = source_guards()
+    pg = probe_guards()
+    eff = dict(sg)
+    eff.update(pg)
+    return eff, sg, pg
+
+
 def gen_susp():
     from extract import c_eval, src, HEADER, GEN
     v = c_eval('#include "MHD_config.h"\n#include "platform.h"\n#include "microhttpd.h"\n#include "internal.h"\n',
@@ -97,10 +201,12 @@ def gen_susp():
     for k in ("eliRead", "eliWrite", "eliProcess", "eliProcessRead", "eliCleanup",
               "epReadReady", "epWriteReady", "epInEready", "epInSet", "epSuspended"):
         out.append("def %s : Nat := %s" % (k, v[k]))
-    out.append("/-! presence of the `suspended` guards in the source (true = the guard is there) -/")
-    sg = source_guards()
+    out.append("/-! presence of the `suspended` guards (true = the guard is there).  `probe` = determined by asking the")
+    out.append("    real code (harness/h_susp.c, ops `probe` / `wb` and scripted suspends); `pattern` = found in the source text -/")
+    eff, sg, pg = effective_guards()
     for name, f, fn, rx in GUARDS:
-        out.append("/-- %s: %s -/\ndef %s : Bool := %s" % (f, fn, name, "true" if sg[name] else "false"))
+        how = ("probe=%s pattern=%s" % (pg[name], sg[name])) if name in pg else ("pattern=%s" % sg[name])
+        out.append("/-- %s: %s (%s) -/\ndef %s : Bool := %s" % (f, fn, how, name, "true" if eff[name] else "false"))
     out.append("end Mhd.Gen.Susp\n")
     return vlib.write_if_changed(os.path.join(GEN, "Susp.lean"), "\n".join(out))
 
@@ -256,7 +362,7 @@ def gen_cases(ctx, tier, boost=False):
     # a content reader that suspends *and* returns data: with a known-size reply the block is sent by the
     # same MHD_connection_handle_write call unless the source has the guard (finding FC11b); explored for
     # chunked replies always, for known-size replies only when the source claims to handle it
-    rd_known_ok = source_guards().get("writeReaderGuard", False)
+    rd_known_ok = effective_guards()[0].get("writeReaderGuard", False)
     cases = []
     maxn = 3 if tier == "thorough" else 2
     modes = ["select", "epoll"]     # MHD_USE_POLL exists only with an internal thread (see the random part)
